@@ -42,7 +42,7 @@ claim("C03",
       "take when there is one and the inherited sorting otherwise (sort_take ST1-3), the emitted OFFSET / LIMIT / FETCH carry exactly those numbers and the "
       "ORDER BY list is kept in order (limit_clause LC2, LC2l, LC5), empty selections are encoded as LIMIT 0 and never as a "
       "negative limit (TR3o), no arithmetic panic (checked composition), and validate_take_range accepts exactly positive integer "
-      "bounds (TR4). NOT proved: the SQL side of sort persistence (infer_sorts pushing sorts down the CTE chain) - the end-to-end sentence of C03 is not what is proved.",
+      "bounds (TR4). the SQL side of sort persistence, per step: every arm of SortingInference::fold_sql_transforms and the record of a CTE's sorting (sort_infer SI0-8, CS1-2; the driver loops, alias_last_sorting and the cid redirection are NOT under contract). NOT proved: the end-to-end sentence of C03.",
       "Trusted: unpack_as_int_literal / bound_as_int by contract (enum_as_inner accessors), Option::transpose/zip and Ord::min by "
       "assume_specification, that the database implements OFFSET/LIMIT; the slice drops the rest of translate_select_pipeline.")
 
@@ -88,7 +88,7 @@ claim("C01",
       "left behind or lost (vec_utils WH1-4), on top of full contracts for the two helpers it uses - Vec::pluck is a stable partition by a fallible conversion "
       "(PL1-2, loop invariant PLI, any length) and Vec::break_up cuts at the first match (BU1-3); a grouped take becomes DISTINCT only for `take 1` without an order "
       "over a key that is the whole row, DISTINCT ON only for `take 1`, and otherwise a ROW_NUMBER() filter whose condition holds exactly for the positions kept "
-      "(group_take DT1-4, RN1). "
+      "(group_take DT1-4, RN1). the SQL back end's sort inference, one step per transform: FROM a CTE starts with the sorting recorded for it and leaves the record for its other consumers, Sort replaces it, Distinct / Aggregate clear it, Join keeps it unless it served a DISTINCT ON, Take / DISTINCT ON emit the ORDER BY in front of themselves, Select / Filter keep it; the record of a CTE is the sorting its pipeline ended with (sort_infer SI0-8, CS1-2); building a join call keeps the Flattener's sort (flatten_sort FT3). a join is replaced by EXCEPT / INTERSECT only if its condition is nothing but equalities (collect_equals, recursive, CE1-2) that pair top[i] with bottom[i] for every i and nothing else (equal_by_position, loop invariant EP1-3; recognition slices XR1-3, IR1-2). "
       "NOT proved: the end-to-end sentence of C01 (semantic preservation of the whole compiler).",
       "Oracle: SQL's logical clause order. HashSet<String>, strum AsRefStr, contains_any, the filter/fold in can_materialize and "
       "infer_complexity_expr are trusted by contract; split_off_back's loop and anchor_split are not under contract.")
@@ -152,7 +152,7 @@ claim("C05",
       "otherwise puts a SELECT of exactly the requested columns, in the requested order, on top (limit_select EA1-3); when a star follows, only the explicitly "
       "selected columns IMMEDIATELY before it that it includes are dropped from the projection - what stays is a prefix, in order (star_cols AB1-3, loop invariant); "
       "push_select expands `T.*` into every listed column of T, in order, after what was selected before (XA1, loop invariant). The obligation that such columns are excluded for EVERY dialect (TE1) fails for "
-      "dialects without such a clause: recorded finding (`_expr_0` appears in the result on SQLite). NOT proved: wildcard / "
+      "dialects without such a clause: recorded finding (`_expr_0` appears in the result on SQLite). the relation declared for `from s\"SELECT ..\"`: an item gets a name only if it is a bare identifier or has an alias (sstring_cols PN1-3), the names are declared once each in the order of first occurrence (SC1) - that they are the FIRST columns fails: recorded finding SC2 (a referenced column moves to the front); `select !{..}` removes a known column only for the same full identifier or a star over its input (lineage_except LE1-2). NOT proved: wildcard / "
       "exclude translation, arity and order of the final projection for every program.",
       "translate_cid, the computation of the inferred name, HashMap / HashSet / NameGenerator are shims by contract; the iteration of retain() and "
       "the search of the Select in the CTE pipeline are dropped by the slices.")
@@ -204,7 +204,7 @@ claim("C16",
       "recorded column for an expression lowered before and emits nothing, otherwise appends at most ONE Compute, whose id is the generator's next (fresh) id, and "
       "records the node -> column mapping (lower_cols DC1-4); push_select closes the pipeline with a Select of exactly the ids of the declared columns, in order, "
       "and returns those columns (rq_shape PS1-3); a column merged by `append` keeps referring to the top pipeline's expression and is named by the top, else the bottom "
-      "(AP1-2). NOT proved: visibility of "
+      "(AP1-2). the resolver side of what lowering assumes: a named column leaves a star exactly when it is qualified with the local name of the star's input (lineage_except LE3), a column inferred for a wildcard table is declared once per exact name and appended (IC1-2). NOT proved: visibility of "
       "every used id at its point of use (cid redirection through hash maps), select arity.",
       "toposort()'s HashMap index / outer loop, lower_table_decl and the Lowerer's node_mapping are not under contract.")
 
@@ -246,7 +246,7 @@ claim("C12",
       "static_eval_rq_operator matches the parameter count std.prql declares for that internal function): Verus proves, per "
       "function, absence of arithmetic overflow, failed unwrap/expect, out-of-range index, reachable unreachable!() and (for Toposort::visit and every "
       "loop) termination, under preconditions derived from the call sites. Obligations whose failure is a recorded finding: the parser-span / "
-      "character-offset mismatch that makes ErrorMessages::composed panic (span_units.SU2); the reachable todo!() of type_intersection (type_meet). NOT proved: the rest of the code base, stack depth, time.",
+      "character-offset mismatch that makes ErrorMessages::composed panic (span_units.SU2); the reachable todo!() of type_intersection (type_meet). Functions that are under contract only for C12: translate_query_sstring (std::str slicing on character boundaries), the tuple-type check of the parser (empty tuple), the two unreachable!() of translate_set_ops_pipeline together with the set-operation rows of the split table that keep anything else out of that pipeline, the std.not arm of the resolver, the names of a relation literal's columns. NOT proved: the rest of the code base, stack depth, time.",
       "Preconditions (validated take bounds, operator arities as the resolver builds them, id counters below usize::MAX) are assumptions about call sites "
       "that are not themselves verified; RQ/PL supplied as JSON can violate them.")
 
